@@ -25,9 +25,8 @@ Proof.
   assert (H4 : o + 4 <= zlen g) by (apply zlen_rd_full; try lia; rewrite zlen_rd in * by lia; lia).
   destruct (be_decode (mp4_rd g o 4) =? 0) eqn:E0. { intros H; inversion H; subst. apply frame_in_refl. }
   destruct (be_decode (mp4_rd g o 4) =? 1) eqn:E1.
-  - destruct (negb (zlen (zdrop 4 (mp4_rd g (o + 4) 12)) =? 8)) eqn:E8; [discriminate|].
-    apply negb_false_iff in E8. apply Z.eqb_eq in E8.
-    rewrite zlen_zdrop in E8 by lia. rewrite zlen_rd in E8 by lia.
+  - destruct (zlen (mp4_rd g (o + 4) 12) <? 12) eqn:E12; [discriminate|].
+    rewrite zlen_rd in E12 by lia.
     match goal with |- context [if ?c then _ else _] => destruct c end; [discriminate|].
     intros H; inversion H; subst. apply frame_in_patch; rewrite ?zlen_be_enc; lia.
   - match goal with |- context [if ?c then _ else _] => destruct c end; [discriminate|].
@@ -56,8 +55,8 @@ Lemma update_parent_64 delta g o l g' : 0 <= o -> o + 16 <= zlen g -> be_decode 
 Proof.
   intros Ho H16 H1 Hl. unfold mp4_update_parent. rewrite zlen_rd_in by lia.
   cbn [Z.ltb Z.compare Pos.compare Pos.compare_cont]. rewrite H1. cbn [Z.eqb Pos.eqb].
-  rewrite zdrop_rd by lia. replace (o + 4 + 4) with (o + 8) by lia. replace (12 - 4) with 8 by lia.
-  rewrite zlen_rd_in by lia. cbn [Z.eqb Pos.eqb negb]. rewrite Hl.
+  rewrite zlen_rd_in by lia. cbn [Z.ltb Z.compare Pos.compare Pos.compare_cont].
+  rewrite zdrop_rd by lia. replace (o + 4 + 4) with (o + 8) by lia. replace (12 - 4) with 8 by lia. rewrite Hl.
   destruct ((l + delta <? 0) || (MP4_U64 <=? l + delta)) eqn:E; [discriminate|].
   intros H; inversion H; subst. split; [|reflexivity]. apply orb_false_iff in E. lia.
 Qed.
@@ -67,21 +66,34 @@ Definition tab_entries (w : nat) (g : list Z) (ao : Z) : list Z :=
   let cnt := be_decode (mp4_rd g (ao + 12) 4) in
   mp4_unpack (Z.of_nat w) (Z.to_nat cnt) (mp4_rd g (ao + 16) (Z.of_nat w * cnt)).
 
+Lemma read_full_ok g p n : 0 <= n -> 0 <= p -> p + n <= zlen g -> mp4_read_full g p n = Ok (mp4_rd g p n).
+Proof.
+  intros Hn Hp Hf. unfold mp4_read_full. destruct (n <? 0) eqn:E; [lia|]. rewrite zlen_rd_in by lia.
+  rewrite Z.ltb_irrefl. reflexivity.
+Qed.
+Lemma read_full_inv g p n d : 0 <= p -> mp4_read_full g p n = Ok d -> 0 <= n /\ d = mp4_rd g p n /\ (0 < n -> p + n <= zlen g) /\ zlen d = n.
+Proof.
+  intros Hp. unfold mp4_read_full. destruct (n <? 0) eqn:E; [discriminate|].
+  destruct (zlen (mp4_rd g p n) <? n) eqn:E2; [discriminate|]. intros H; inversion H; subst.
+  rewrite zlen_rd in * by lia. repeat split; lia.
+Qed.
+
 Lemma update_table_frame w delta offset g a g' :
   0 <= mp4_moved offset delta (ma_off a) -> 12 <= ma_len a ->
   mp4_update_table w delta offset g a = Ok g' ->
   frame_in (mp4_moved offset delta (ma_off a) + 16) (mp4_moved offset delta (ma_off a) + ma_len a) g g'.
 Proof.
   intros Hao Hlen. unfold mp4_update_table. set (ao := mp4_moved offset delta (ma_off a)) in *.
-  unfold mp4_read. destruct (ma_len a - 12 <? 0) eqn:En; [lia|].
-  set (data := mp4_rd g (ao + 12) (ma_len a - 12)).
+  destruct (mp4_read_full g (ao + 12) (ma_len a - 12)) as [data0|] eqn:Er; [|discriminate].
+  assert (Hao12 : 0 <= ao + 12) by lia.
+  destruct (read_full_inv g (ao + 12) (ma_len a - 12) data0 Hao12 Er) as (Hn & -> & Hfit & Hd).
+  set (data := mp4_rd g (ao + 12) (ma_len a - 12)) in *.
   destruct (zlen (ztake 4 data) <? 4) eqn:E4; [discriminate|].
   set (cnt := be_decode (ztake 4 data)).
   destruct (negb (zlen (zdrop 4 data) =? Z.of_nat w * cnt)) eqn:Eb; [discriminate|].
   apply negb_false_iff in Eb. apply Z.eqb_eq in Eb.
   match goal with |- context [if ?c then _ else _] => destruct c end; [|discriminate].
   intros H; inversion H; subst g'.
-  assert (Hd : zlen data = Z.max 0 (Z.min (ma_len a - 12) (zlen g - (ao + 12)))) by (apply zlen_rd; lia).
   assert (H4 : 4 <= zlen data). { rewrite zlen_ztake in E4 by lia. lia. }
   rewrite zlen_zdrop in Eb by lia.
   apply frame_in_patch; rewrite ?zlen_pack, ?zlen_map, ?zlen_unpack; try lia.
@@ -101,7 +113,7 @@ Lemma update_table_spec w delta offset g a g' :
 Proof.
   intros Hw ao cnt Hao Hcnt Hlen Hfit. unfold mp4_update_table. fold ao.
   assert (Hwc : 0 <= Z.of_nat w * cnt) by nia.
-  unfold mp4_read. destruct (ma_len a - 12 <? 0) eqn:En; [lia|].
+  rewrite read_full_ok by lia.
   rewrite ztake_rd by lia. rewrite zlen_rd_in by lia. cbn [Z.ltb Z.compare Pos.compare Pos.compare_cont].
   fold cnt. rewrite zdrop_rd by lia. replace (ao + 12 + 4) with (ao + 16) by lia.
   replace (ma_len a - 12 - 4) with (Z.of_nat w * cnt) by lia.
@@ -134,17 +146,15 @@ Lemma update_tfhd_frame delta offset g a g' :
   frame_in (mp4_moved offset delta (ma_off a) + 16) (mp4_moved offset delta (ma_off a) + ma_len a) g g'.
 Proof.
   intros Hao Hlen. unfold mp4_update_tfhd. set (ao := mp4_moved offset delta (ma_off a)) in *.
-  unfold mp4_read. destruct (ma_len a - 9 <? 0) eqn:En; [lia|].
-  set (data := mp4_rd g (ao + 9) (ma_len a - 9)).
+  destruct (mp4_read_full g (ao + 9) (ma_len a - 9)) as [data0|] eqn:Er; [|discriminate].
+  assert (Hao9 : 0 <= ao + 9) by lia.
+  destruct (read_full_inv g (ao + 9) (ma_len a - 9) data0 Hao9 Er) as (Hn & -> & Hfit & Hd).
+  set (data := mp4_rd g (ao + 9) (ma_len a - 9)) in *.
   destruct (zlen (ztake 3 data) <? 3) eqn:E3; [discriminate|].
   destruct (Z.odd (be_decode (ztake 3 data))) eqn:Eo; [|intros H; inversion H; subst; apply frame_in_refl].
-  destruct (negb (zlen (zslice 7 15 data) =? 8)) eqn:E8; [discriminate|].
-  apply negb_false_iff in E8. apply Z.eqb_eq in E8.
+  destruct (zlen data <? 15) eqn:E15; [discriminate|].
   match goal with |- context [if ?c then _ else _] => destruct c end; [discriminate|].
   intros H; inversion H; subst g'.
-  assert (Hd : zlen data = Z.max 0 (Z.min (ma_len a - 9) (zlen g - (ao + 9)))) by (apply zlen_rd; lia).
-  unfold zslice in E8. replace (15 - 7) with 8 in E8 by lia.
-  rewrite zlen_ztake in E8 by lia. rewrite zlen_zdrop in E8 by lia.
   apply frame_in_patch; rewrite ?zlen_be_enc; lia.
 Qed.
 
@@ -162,15 +172,14 @@ Lemma update_tfhd_spec delta offset g a g' :
      0 <= o' < MP4_U64 /\ g' = patch g (ao + 16) (be_encode 8 o') /\ tfhd_base g' ao = o').
 Proof.
   intros ao Hao Hlen Hflag Hfit. unfold mp4_update_tfhd. fold ao.
-  unfold mp4_read. destruct (ma_len a - 9 <? 0) eqn:En; [lia|].
+  rewrite read_full_ok by lia.
   rewrite ztake_rd by lia. rewrite zlen_rd_in by lia. cbn [Z.ltb Z.compare Pos.compare Pos.compare_cont].
   change (Z.odd (be_decode (mp4_rd g (ao + 9) 3))) with (tfhd_flag g ao).
   destruct (tfhd_flag g ao) eqn:Ef.
-  - specialize (Hflag eq_refl).
+  - specialize (Hflag eq_refl). rewrite zlen_rd_in by lia. destruct (ma_len a - 9 <? 15) eqn:E15; [lia|].
     unfold zslice. replace (15 - 7) with 8 by lia.
     change (ztake 8 (zdrop 7 (mp4_rd g (ao + 9) (ma_len a - 9)))) with (mp4_rd (mp4_rd g (ao + 9) (ma_len a - 9)) 7 8).
     rewrite rd_sub by lia. replace (ao + 9 + 7) with (ao + 16) by lia.
-    rewrite zlen_rd_in by lia. cbn [Z.eqb Pos.eqb negb].
     change (be_decode (mp4_rd g (ao + 16) 8)) with (tfhd_base g ao).
     set (o' := if tfhd_base g ao >? offset then tfhd_base g ao + delta else tfhd_base g ao).
     destruct ((o' <? 0) || (MP4_U64 <=? o')) eqn:E; [discriminate|]. apply orb_false_iff in E.
